@@ -170,11 +170,15 @@ def _table(ctx, b: Func, st: ast.Assign) -> Union[Table, str]:
         return "loop `for %s in %s` is outside the recognised forms" % (unparse(loop.target), unparse(it)[:60])
     off = 0
     if guard is not None:
-        g = unparse(guard.test).replace(" ", "")
-        if len(rows) == 2 and g in ("%s!=0and%s!=0" % rows, "%s!=0and%s!=0" % rows[::-1]) and any(app is x for s in guard.body for x in ast.walk(s)):
+        from .astutil import conjuncts
+        in_body = any(app is x for s in guard.body for x in ast.walk(s))
+        c = conjuncts(guard.test, in_body)
+        atoms = {(t, pol) for t, pol, _ in c} if c is not None else None
+        want = {("%s == 0" % r, False) for r in rows} if len(rows) == 2 else None
+        if atoms is not None and want is not None and atoms == want:
             off = 1
         else:
-            return "append is guarded by `%s`" % g
+            return "append is guarded by `%s`" % unparse(guard.test)
     defs = {}
     for s in ast.walk(loop):
         if isinstance(s, ast.Assign) and len(s.targets) == 1 and isinstance(s.targets[0], ast.Name) and s.targets[0].id not in rows:
